@@ -202,6 +202,38 @@ nextchar_spec(struct scanner *s)
 }
 
 /* ---------------------------------------------------------------------------------------------------------------
+ * Second stand-in, for the leaf scanners (number, ident, comment, ...) that only ever call nextchar(): the same step
+ * expressed on the LOGICAL description of the file.  The scanner stands on logical character g_li; the next call
+ * delivers logical character g_li + 1, having skipped the g_k[g_li + 1] splices in front of it.  On a stream laid out
+ * by gs_build() this is what nextchar_spec() computes from the bytes (lemma unit SCAN.nextchar.abs checks the two
+ * against each other for every position); the logical index stays a constant during symbolic execution, which is
+ * what makes 12-character tokens tractable.
+ */
+size_t g_li;
+
+void
+nextchar_abs(struct scanner *s)
+{
+	size_t i = g_li + 1, k;
+	int c;
+
+	if (s->usebuf)
+		bufadd(&s->buf, s->chr);
+	__CPROVER_assert(i < GS_LMAX + 6, "nextchar stand-in: read stays inside the logical window (harness bound)");
+	c = i < g_m ? g_L[i] : LEX_EOF;
+	k = i <= g_m && i <= GS_LMAX ? g_k[i] : 0;
+	g_li = i;
+	++g_getc_calls;
+	g_in_pos = GS_POS_AFTER(i);
+	g_unget_depth = c == '\\' && g_in_pos < g_in_n ? 1 : 0;
+	if (g_unget_depth > g_unget_max)
+		g_unget_max = g_unget_depth;
+	s->chr = c;
+	s->loc.line += k + (c == '\n');
+	s->loc.col = c == '\n' ? 0 : k > 0 ? 1 : s->loc.col + 1;
+}
+
+/* ---------------------------------------------------------------------------------------------------------------
  * A scanner object as scanfrom() makes it and scan() leaves it between tokens (usebuf false, buf.len 0, the buffer
  * either never allocated or of its initial capacity), standing on logical character 0.
  */
@@ -227,6 +259,7 @@ gs_scanner_at0(bool sawspace, bool have_buf, bool sync, size_t line, size_t col)
 	}
 	s->loc.file = "<ghost>";
 	s->chr = g_L[0];
+	g_li = 0;
 	g_in_pos = GS_POS_AFTER(0);
 	if (sync) {
 		/* location in step with the stream (needs gs_tables) */
